@@ -26,7 +26,7 @@ from vf import core
 
 PROPERTY = 'C16'
 
-ANSWERS = ['now', 'late', 'late-split', 'garbage-after', 'silent', 'close-before', 'close-after', 'late-short']
+ANSWERS = ['now', 'late', 'late-split', 'garbage-after', 'silent', 'close-before', 'close-after', 'late-short', 'trickle']
 TIMEOUT = 2.0
 POLLINTERVAL = 10.0
 
@@ -48,13 +48,18 @@ class Device:
     def __init__(self, world):
         self.world = world
         self.buf = b''
+        self.hung = False
 
     def on_connect(self, sock):
         from vf.engines.fakesock import Refused
         w = self.world
         w.attempts.append(w.sched.now)
         if w.nconn > 0 and w.window:
-            if w.sched.choose(2, 'reconnect:accept/refuse'):
+            fate = w.sched.choose(3, 'reconnect:accept/refuse/refuse-slowly')
+            if fate:
+                if fate == 2:           # the attempt blocks for a while before it fails (connect time-out)
+                    from vf.engines import schedx
+                    schedx.vsleep(1.0)
                 w.events.append(('refused', w.sched.now))
                 raise Refused()
         w.nconn += 1
@@ -75,6 +80,9 @@ class Device:
         w.events.append(('dev-got', cmd.decode(), w.sched.now))
         if cmd.startswith(b'W') or cmd == b'M2' and w.no_reply_for_m2:
             return          # write-only commands are not answered by this device
+        if self.hung:
+            w.answers.append((cmd.decode(), 'hung'))
+            return          # a device that started to dribble never answers properly again on this connection
         if cmd.decode() in w.scripted:      # the case fixes this command's fate: no deviation spent on it
             answer = w.scripted[cmd.decode()] if w.window else 'now'
         else:
@@ -99,6 +107,11 @@ class Device:
             deliver(b'R:JUNK' + w.eol)      # unsolicited line right behind the reply: it is there before the next command
         elif answer == 'silent':
             pass
+        elif answer == 'trickle':
+            # an incomplete reply dribbling in with pauses shorter than the time-out, never an end-of-line
+            self.hung = True
+            for k in range(40):
+                deliver(b'R:'[k:k + 1] if k < 2 else b'x', delay=1.5 * k)
         elif answer == 'close-before':
             sock.peer_close()
             w.events.append(('dev-closed', w.sched.now))
@@ -262,6 +275,8 @@ def judge(case, sched, x, world, out, net):
     total_delay = sum(r[2] for ops in case['threads'] for op in ops if op[0] == 'multi' for r in op[1]) + \
         sum(op[1] for ops in case['threads'] for op in ops if op[0] == 'sleep')
     ncalls = sum(1 if op[0] != 'multi' else len(op[1]) for ops in case['threads'] for op in ops if op[0] not in ('sleep', 'pollconn'))
+    if case['kind'] == 'bytesvar':
+        ncalls *= 2         # header and tail are two reads, each with the time-out of its own
     limit = ncalls * (TIMEOUT + 2.0) + total_delay + 1e-6
     disturbed = any(a != 'now' for _c, a in world.answers)
     for i, results in enumerate(out['results']):
